@@ -80,7 +80,7 @@ fn build(ch: &mut Chooser, fmt: &str) -> (Vec<u8>, Meta, Vec<(String, String)>) 
                 b.defined_names[1].0 = n0.clone(); expn[1].0 = n0;
                 b.defined_name_local_sheet = vec![Some(0), Some(1)];
             }
-            let e = xlsx::XEnc { prefix: ch.flag("xlsx.prefix"), indent: ch.flag("xlsx.indented"), extras: ch.flag("xlsx.optional-elements-of-the-workbook-and-sheet-parts(calcPr, extLst with x15:workbookPr, ...)"), split_text_nodes: ch.flag("xlsx.defined-name-text-split-by-comment"), bool_words: ch.flag("xlsx.date1904-spelled-true-false"), rels_target_first: ch.flag("xlsx.rels-target-before-type"), ..Default::default() };
+            let e = xlsx::XEnc { sheet_subfolder: ch.flag("xlsx.sheet-parts-in-a-sub-folder"), prefix: ch.flag("xlsx.prefix"), indent: ch.flag("xlsx.indented"), extras: ch.flag("xlsx.optional-elements-of-the-workbook-and-sheet-parts(calcPr, extLst with x15:workbookPr, ...)"), split_text_nodes: ch.flag("xlsx.defined-name-text-split-by-comment"), bool_words: ch.flag("xlsx.date1904-spelled-true-false"), rels_target_first: ch.flag("xlsx.rels-target-before-type"), ..Default::default() };
             (xlsx::write(&b, &e), m, expn)
         }
         "xlsb" => {
